@@ -16,10 +16,12 @@ COMMON_ASSUMPTIONS = [
 PROPS = {
     "C01": dict(tags=["C01"], runs=[
         R("rand", "64", "core", 260, 80), R("plain", "64", "core", 160, 80), R("det", "64", "core", 160, 80),
-        R("rand", "64", "core", 60, 80, mode="unscripted"), R("rand", "64", "prims", 1, 1, thor=(2, 1))]),
+        R("rand", "64", "core", 60, 80, mode="unscripted"), R("rand", "64", "prims", 1, 1, thor=(2, 1)),
+        R("randfast", "64", "core", 80, 80)]),
     "C02": dict(tags=["C02"], runs=[
         R("rand", "32", "core", 260, 80), R("plain", "32", "core", 160, 80), R("det", "32", "core", 160, 80),
-        R("rand", "32", "core", 60, 80, mode="unscripted"), R("rand", "32", "prims", 1, 1, thor=(2, 1))]),
+        R("rand", "32", "core", 60, 80, mode="unscripted"), R("rand", "32", "prims", 1, 1, thor=(2, 1)),
+        R("randfast", "32", "core", 80, 80)]),
     "C03": dict(tags=["C03"], runs=[
         R("rand", "typed", "fits", 1, 1), R("rand", "typed", "typed", 120, 60)]),
     "C04": dict(tags=["C04"], runs=[
@@ -59,9 +61,10 @@ PROPS = {
     "C16": dict(tags=["C16"], runs=[
         R("serde", "64", "serde", 120, 50), R("serde", "32", "serde", 120, 50), R("serde", "typed", "typedserde", 60, 30)]),
     "C17": dict(tags=["C17"], runs=[
-        R("det", "64", "det", 120, 80), R("det", "32", "det", 120, 80)]),
+        R("det", "64", "det", 120, 80), R("det", "32", "det", 120, 80), R("det", "typed", "typeddet", 20, 40)]),
     "C18": dict(tags=["C18"], runs=[
-        R("rand", "64", "readers", 100, 60), R("rand", "32", "readers", 100, 60)]),
+        R("rand", "64", "readers", 100, 60), R("rand", "32", "readers", 100, 60),
+        R("randfast", "64", "readers", 40, 60), R("randfast", "32", "readers", 40, 60)]),
     "C19": dict(tags=["C19"], runs=[
         R("compact", "64", "compact", 140, 60), R("compact", "32", "compact", 140, 60), R("detcompact", "64", "compact", 60, 60)]),
     "C20": dict(tags=["C20"], runs=[
